@@ -35,11 +35,38 @@ func (r *Recorder) Emit(format string, args ...any) {
 	s := fmt.Sprintf(format, args...)
 	r.mu.Lock()
 	r.evs = append(r.evs, s)
-	r.mu.Unlock()
 	r.n.Add(1)
+	r.mu.Unlock()
 }
 
 func (r *Recorder) Count() int64 { return r.n.Load() }
+
+// EmitIfCount appends the event only if exactly cnt events have been recorded so far (atomically),
+// so that an observation of quiescence cannot be logged after something else already happened.
+func (r *Recorder) EmitIfCount(cnt int64, format string, args ...any) bool {
+	s := fmt.Sprintf(format, args...)
+	r.mu.Lock()
+	defer r.mu.Unlock()
+	if int64(len(r.evs)) != cnt {
+		return false
+	}
+	r.evs = append(r.evs, s)
+	r.n.Add(1)
+	return true
+}
+
+// QuiescentAt waits for quiescence and returns the event count at which it was observed (-1 on timeout).
+func (r *Recorder) QuiescentAt(maxWait time.Duration) int64 {
+	for deadline := time.Now().Add(maxWait); ; {
+		c := r.Count()
+		if r.WaitQuiescentN(time.Until(deadline), 3, 300*time.Microsecond) && r.Count() == c {
+			return c
+		}
+		if time.Now().After(deadline) {
+			return -1
+		}
+	}
+}
 
 func (r *Recorder) Events() []string {
 	r.mu.Lock()
@@ -216,6 +243,9 @@ func allGoroutineStatus() (string, bool) {
 		m := hdrRe.FindSubmatch(line)
 		if m == nil {
 			continue
+		}
+		if bytes.Contains(b, []byte("os/signal.loop")) || bytes.Contains(b, []byte("os/signal.signal_recv")) {
+			continue // the runtime's signal-forwarding goroutine sits in a syscall forever
 		}
 		if !blockedStatus[string(m[2])] {
 			all = false
